@@ -29,6 +29,8 @@ DEFAULTS = {
     'templates': 'dense',      # 'dense' | 'sparse'
     'id_dtype': 'int32', 'time_dtype': 'uint64',
     'alf_samples': True,
+    'raw_nonfinite': False,    # float raw data with inf / NaN / -inf at three samples
+    'alf_clock': 'rate',       # 'rate': seconds = samples / rate | 'sync': seconds on another clock
     'attrs': 'none',           # 'none' | '1d' | '2d' | 'wronglen' | 'col' (n,1) | 'row' (1,n)
     'content': 'finite',       # 'nan_amp' | 'inf_wm' | 'nan_similar' | 'nan_template' | 'nan_features'
     'monotone': True,
@@ -185,6 +187,9 @@ def make_dataset(d, spec=None):
 
     if alf:
         truth['spike_times_sec'] = samples.astype(np.float64) / sr
+        if s['alf_clock'] == 'sync' and s['alf_samples']:
+            # seconds on another (synchronised) clock: not samples / rate; the sample file is there
+            truth['spike_times_sec'] = truth['spike_times_sec'] * (1.0 + 2.0 ** -14) + 0.25
         save('spikes.times.npy', _vec(truth['spike_times_sec'], s['vec2d']))
         if s['alf_samples']:
             save('spikes.samples.npy', _vec(samples, s['vec2d']))
@@ -429,6 +434,11 @@ def make_dataset(d, spec=None):
         n_raw = s['n_raw']
         raw = ((np.arange(n_raw * n_dat) * 7 + fill) % 201 - 100).astype(s['raw_dtype']).reshape(
             n_raw, n_dat)
+        if s['raw_nonfinite'] and np.dtype(s['raw_dtype']).kind == 'f':
+            # a float recording with a few non-finite samples (saturation markers, gaps)
+            raw[3, 1 % n_dat] = np.inf
+            raw[n_raw // 2, 0] = np.nan
+            raw[n_raw - 2, n_dat - 1] = -np.inf
         truth['raw'] = raw
         k = int(s['raw_files'])
         cuts = [0] + [n_raw * (i + 1) // k for i in range(k)]
